@@ -168,9 +168,11 @@ def scorer_case(ctx, r):
     spec2 = permute_spec(spec, T["perm"]) if kind == "permute" else spec
     label = f"{short(spec)} X[{n}x{p}] T={T}"
     sub = f"scorer-{kind}"
+    side = "X"
     try:
         sc1 = build(spec).fit(X)
         v1 = sc1.evaluate(cuts)
+        side = "T(X)"
         cuts2 = (n - cuts[:, ::-1]) if kind == "reverse" else cuts
         if r.get("reuse") and spec2 == spec:
             # the SAME object re-fitted on T(X): nothing of the first fit may survive
@@ -178,7 +180,37 @@ def scorer_case(ctx, r):
             v2 = sc1.fit(X2).evaluate(cuts2)
         else:
             v2 = build(spec2).fit(X2).evaluate(cuts2)
-    except RuntimeError:
+    except RuntimeError as ex:
+        # The documented error of the multivariate Gaussian cost: permitted when the sample covariance of some
+        # evaluated slice is singular up to rounding.  Singularity is a property of the *shape* of the data, not of
+        # their unit: when every slice (of X and of T(X)) is well conditioned and only the transformed member
+        # raises, the transformation changed the outcome.
+        def worst_cond(A, cc):
+            w = 1.0
+            for row in cc:
+                for a, b in zip(row[:-1], row[1:]):
+                    seg = A[a:b]
+                    if len(seg) > A.shape[1]:
+                        ev = np.linalg.eigvalsh(np.cov(seg, rowvar=False, ddof=0).reshape(A.shape[1], -1))
+                        w = max(w, np.inf if ev.min() <= 0 else ev.max() / ev.min())
+                if len(row) == 4:  # pooled surroundings of a local score
+                    seg = np.concatenate((A[row[0]:row[1]], A[row[2]:row[3]]))
+                    if len(seg) > A.shape[1]:
+                        ev = np.linalg.eigvalsh(np.cov(seg, rowvar=False, ddof=0).reshape(A.shape[1], -1))
+                        w = max(w, np.inf if ev.min() <= 0 else ev.max() / ev.min())
+                seg = A[row[0]:row[-1]]
+                ev = np.linalg.eigvalsh(np.cov(seg, rowvar=False, ddof=0).reshape(A.shape[1], -1))
+                w = max(w, np.inf if ev.min() <= 0 else ev.max() / ev.min())
+            return w
+
+        if side == "T(X)" and "GaussianCovCost" in str(spec) and kind in ("scale", "shift", "permute", "reverse"):
+            c2 = (n - cuts[:, ::-1]) if kind == "reverse" else cuts
+            wc = max(worst_cond(X, cuts), worst_cond(X2, c2))
+            if wc < 1e6:
+                ctx.violation(sub, "one-sided-runtimeerror", f"{label}: evaluate succeeded on X but raised on T(X) "
+                              f"({ex}) although every evaluated slice is well conditioned (worst condition number "
+                              f"{wc:.3g})", r)
+                return
         ctx.stat("documented_runtimeerror")
         return
     except Exception as ex:
